@@ -91,6 +91,55 @@ def _lambda_bodies(expr):
   return out
 
 
+def _free_reads(fn):
+  """Name loads inside the nested function `fn` (at any depth) that resolve to a scope enclosing `fn`: every
+  nested def / lambda binds its own locals and parameters, so a deeper function's local of the same name is not a
+  read of the enclosing function's variable."""
+  out = []
+
+  def scope(node, outer_bound):
+    a = node.args
+    bound = set(outer_bound) | {x.arg for x in a.posonlyargs + a.args + a.kwonlyargs}
+    if a.vararg:
+      bound.add(a.vararg.arg)
+    if a.kwarg:
+      bound.add(a.kwarg.arg)
+    if not isinstance(node, ast.Lambda):
+      bound |= _local_names(node)
+    body = node.body if isinstance(node.body, list) else [node.body]
+
+    def walk(n, bound):
+      if isinstance(n, (ast.FunctionDef, ast.AsyncFunctionDef, ast.Lambda)):
+        for d in n.args.defaults + [k for k in n.args.kw_defaults if k is not None]:
+          walk(d, bound)
+        for d in getattr(n, 'decorator_list', []):
+          walk(d, bound)
+        scope(n, bound)
+        return
+      if isinstance(n, ast.ClassDef):
+        return
+      if isinstance(n, ast.Name):
+        if isinstance(n.ctx, ast.Load) and n.id not in bound:
+          out.append(n)
+        return
+      if isinstance(n, (ast.ListComp, ast.SetComp, ast.GeneratorExp, ast.DictComp)):
+        inner = set(bound)
+        for i, g in enumerate(n.generators):
+          walk(g.iter, inner if i else bound)
+          inner |= {t.id for t in ast.walk(g.target) if isinstance(t, ast.Name)}
+          for c in g.ifs:
+            walk(c, inner)
+        for part in ([n.key, n.value] if isinstance(n, ast.DictComp) else [n.elt]):
+          walk(part, inner)
+        return
+      for c in ast.iter_child_nodes(n):
+        walk(c, bound)
+    for st in body:
+      walk(st, bound)
+  scope(fn, set())
+  return out
+
+
 def _free_names(expr):
   return {n.id for n in ast.walk(expr) if isinstance(n, ast.Name)}
 
@@ -206,10 +255,8 @@ class DA:
       for d in s.decorator_list:
         self.check_expr(d, st)
       # free reads of enclosing locals inside the nested def
-      inner_locals = _local_names(s)
-      for n in ast.walk(s):
-        if isinstance(n, ast.Name) and isinstance(n.ctx, ast.Load) and n.id in self.locals and n.id not in inner_locals:
-          # skip names shadowed by deeper nested function locals: approximate
+      for n in _free_reads(s):
+        if n.id in self.locals:
           self.closure_reads.append((n.id, n, set(st.assigned) | {s.name}))
       st.assigned.add(s.name)
       st.versions[s.name] = st.versions.get(s.name, 0) + 1
